@@ -152,8 +152,12 @@ def _work(job):
     complete = os.path.join(reference_dir, compare_name)
     extra = ["--read-as", DSV_OPT] if is_csv else []
     res = []
-    for a, b in ((damaged, complete), (complete, damaged)):
-        rc, _, exc = run_cli(["file", a, b, "--verbosity", "0"] + extra)
+    # every third damaged file is compared the way a CI job does it, with a report requested: asking for the report must not
+    # change the exit status nor let anything escape
+    with_report = (len(content) % 3 == 0)
+    for k, (a, b) in enumerate(((damaged, complete), (complete, damaged))):
+        rep = ["--junit-xml", os.path.join(tmp, f"report_{k}.xml")] if with_report else []
+        rc, _, exc = run_cli(["file", a, b, "--verbosity", "0"] + extra + rep)
         res.append((rc, exc))
     return res
 
@@ -277,7 +281,7 @@ def run(ctx):
     ctx.exhaustive = True
     ctx.extra["files"] = stride_note
     ctx.rule = ("for each small file (.vtu in 6-9 encodings, .vtp, .vti, .vtr, .vts, .pvtu index and piece, .pvd index and step, "
-                ".csv) EVERY cut position 0 <= k < end-of-data (exhaustive per file) and the removal of each single DataArray / Piece "
+                ".csv; every third invocation with --junit-xml) EVERY cut position 0 <= k < end-of-data (exhaustive per file) and the removal of each single DataArray / Piece "
                 "/ DataSet element, each in both roles; cuts at or after the end of the data (closing tags only) carry no requirement; "
                 "CSV cuts after which an independent strict parser still obtains the same table carry no requirement")
     return ctx.finish(assumptions=["PARTIAL: the XML layer (expat), the raw-appended fallback locator and np.genfromtxt on damaged input are "
